@@ -880,6 +880,11 @@ type readFaultCase struct {
 	At         int    // after this many octets
 	Kind       int
 	ByteReader bool
+	// Round 10: delivery of the failure (see parserCfg)
+	Once  bool `json:",omitempty"`
+	Chunk int  `json:",omitempty"`
+	With  int  `json:",omitempty"`
+	Bufio int  `json:",omitempty"`
 }
 
 func genReadFault(t *rapid.T) readFaultCase {
@@ -920,6 +925,7 @@ func genReadFault(t *rapid.T) readFaultCase {
 	}
 	c.Kind = rapid.IntRange(0, len(faultKindNames)-1).Draw(t, "kind")
 	c.ByteReader = rapid.Bool().Draw(t, "br")
+	genDelivery(t, &c, len(txt))
 	// known findings: a failure inside the logical line of a $GENERATE / $INCLUDE; the cut moves
 	// to the start of that line
 	if pbt.Known(kGenReadErr) {
@@ -1015,13 +1021,15 @@ func checkReadFault(c readFaultCase) error {
 		return nil
 	}
 	cfg := parserCfg{File: c.Zone.FileName, Origin: c.OriginText, HasDefTTL: c.Zone.HasDefTTL, DefTTL: c.Zone.DefTTL, Allowed: true, UseFS: true,
-		FaultFile: c.File, FaultAt: c.At, FaultKind: c.Kind, ByteReader: c.ByteReader}
+		FaultFile: c.File, FaultAt: c.At, FaultKind: c.Kind, ByteReader: c.ByteReader,
+		FaultOnce: c.Once, FaultChunk: c.Chunk, FaultWith: c.With, Bufio: c.Bufio}
 	out, viol := runParser(c.Files, cfg, nil)
 	boundary := c.At == 0 || txt[c.At-1] == '\n'
-	pbt.Note(caseKey(c.Files, cfg), upper > 0 || complete > 0, "fault-kind:"+faultKindNames[c.Kind], fmt.Sprintf("fault-in-include=%v", c.File != c.Zone.FileName),
-		fmt.Sprintf("fault-at-line-boundary=%v", boundary), fmt.Sprintf("records-before=%s", bucket(upper)), fmt.Sprintf("byte-reader=%v", c.ByteReader))
+	pbt.Note(caseKey(c.Files, cfg), upper > 0 || complete > 0 || (c.Once && len(den.Recs) > 0), append(deliveryClasses(cfg),
+		"fault-kind:"+faultKindNames[c.Kind], fmt.Sprintf("fault-in-include=%v", c.File != c.Zone.FileName),
+		fmt.Sprintf("fault-at-line-boundary=%v", boundary), fmt.Sprintf("records-before=%s", bucket(upper)), fmt.Sprintf("byte-reader=%v", c.ByteReader))...)
 	ctx := func() string {
-		return fmt.Sprintf("reading %s fails after %d of %d octets with %q (%s); complete items before: %d\n%s", c.File, c.At, len(txt), faultErr(c.Kind), faultKindNames[c.Kind], complete, show(c.Files, cfg))
+		return fmt.Sprintf("reading %s fails after %d of %d octets with %q (%s; %s); complete items before: %d\n%s", c.File, c.At, len(txt), faultErr(c.Kind), faultKindNames[c.Kind], deliveryText(cfg), complete, show(c.Files, cfg))
 	}
 	if viol != nil {
 		return pbt.Errf("%v\n%s", viol, ctx())
@@ -1367,10 +1375,14 @@ var typeFaults = []string{"close-end", "close-mid", "quote-end", "open-end", "cl
 const kSwallowed = "swallowed-lexer-error"
 
 func faultText(c typeFaultCase) (string, bool) {
-	sm, ok := zm.SampleByName(c.Sample)
+	fs, ok := lookupSample(c.Sample) // (round 10: also the samples of this package - SVCB / HTTPS with every kind of parameter, TKEY)
 	if !ok {
 		return "", false
 	}
+	sm := struct {
+		Name   string
+		Tokens []string
+	}{fs.Type, fs.Toks}
 	toks := append([]string(nil), sm.Tokens...)
 	switch c.Fault {
 	case "close-end":
@@ -1536,6 +1548,15 @@ func eachTypeFault(emit func(typeFaultCase)) {
 			emit(typeFaultCase{Sample: sm.Name, Fault: f})
 			emit(typeFaultCase{Sample: sm.Name, Fault: f, Tail: 1})
 			emit(typeFaultCase{Sample: sm.Name, Fault: f, Tail: 2})
+		}
+	}
+	// round 10: the parenthesis and quote faults also for the samples of this package (the value
+	// loop of SVCB / HTTPS behind every kind of parameter, TKEY)
+	for _, name := range extraSampleNames {
+		for _, f := range typeFaults {
+			for tail := 0; tail < 3; tail++ {
+				emit(typeFaultCase{Sample: name, Fault: f, Tail: tail})
+			}
 		}
 	}
 }
